@@ -25,16 +25,23 @@ MANIFEST = dict(
     category="proof",
     text="proof (partial): machine-checked proof (Coq) on the Context/resolver model: two successful inputs submitted "
          "one after the other or joined into one multi-line input give the same printed output, the same last result "
-         "and equivalent states (C07_fold_partial) — under the premises, stated in the theorem, that name resolution, "
-         "type checking and compile-and-run process a statement list as a fold and that the parser reads the joined "
-         "text as the concatenation of the statement lists (these premises are validated on the implementation, not "
-         "proved from the Rust code; the resolver part — one depth-first pass over p1 ++ p2 equals two passes — IS "
-         "proved); `save` writes exactly the trimmed successful inputs in order (C07_save_lines, model of "
-         "SessionHistory::save_inner) and replaying them in a fresh session reproduces the outcomes of the successful "
-         "inputs and an equivalent final state (C07_save_replay, built on C06_history); a copied session is a function "
-         "of the copied state only (C07_clone — in the model a Context is a value; absence of shared mutable state "
-         "between a Context and its clone is checked on real clones). Tie: incremental / joined / split / "
-         "saved-and-replayed / cloned sessions on real Contexts with the real CommandRunner and SessionHistory.",
+         "and equivalent states (C07_fold_partial) under premise (a) the stages are folds over the statement list and "
+         "(b) the parser reads the joined text as the concatenation of the statement lists. (a) is discharged for EVERY "
+         "instance whose stages are defined as folds (C07_fold_any_folds) and in particular for the executable "
+         "miniature instance the correspondence runs on (C07_fold_toy); that numbat's transform / check / "
+         "interpret_statements+run are such folds remains an assumption about the Rust code, validated by joined/split "
+         "sessions. (b) is proved on a model of the statement loop of Parser::parse over an arbitrary statement parser "
+         "from four locality conditions (C07_parse_concat_skeleton; non-vacuity C07_parse_concat_one_tok) and outright, "
+         "at text level, for the miniature grammar (C07_parse_concat_toy); that Parser::statement is local is "
+         "validated on the real parser for all 3600 ordered pairs of a 60-statement alphabet, not proved. The proof "
+         "attempt exposed finding C07-semicolon-before-newline (`1;` and `2` succeed, `1;\\n2` was a parse error), "
+         "repaired by a fix: commit; C07_semicolon_before_fix_refuted keeps the kernel witness and Gen/ParserLoop.v "
+         "re-derives the relevant flag from parser.rs on every run. `save` writes exactly the trimmed successful inputs "
+         "in order (C07_save_lines) and replaying them reproduces the successful outcomes and an equivalent state "
+         "(C07_save_replay, built on C06_history); a copied session is a function of the copied state only "
+         "(C07_clone; sharing in real clones is checked on the implementation). Tie: incremental / joined / split / "
+         "saved-and-replayed / cloned sessions on real Contexts with the real CommandRunner and SessionHistory, plus "
+         "the interactive binary under a pty with the real `save` and `numbat <saved file>`.",
     design_ref="DESIGN.md §6 C07, design/session.md",
     note="Trusted: Coq kernel + vm_compute; hand models Session/{Resolver,Context}.v, SaveProofs.v (save_inner, REPL "
          "loop body); the REPL glue of numbat-cli is re-implemented in the harness around the real "
@@ -44,7 +51,72 @@ MANIFEST = dict(
               "correspondence on real Contexts",
 )
 
-THEOREMS = ["C07_fold_partial", "C07_save_lines", "C07_save_replay", "C07_clone"]
+THEOREMS = ["C07_fold_partial", "C07_fold_any_folds", "C07_fold_toy", "C07_parse_concat_one_tok", "C07_parse_concat_toy", "C07_parse_concat_skeleton",
+            "C07_semicolon_before_fix_refuted", "C07_save_lines", "C07_save_replay", "C07_clone"]
+FINDING_SEMI = "C07-semicolon-before-newline"
+
+
+# ------------------------------------------------------------ translator: statement loop of Parser::parse
+def parser_loop_from_source(repo=None):
+    """does the Semicolon arm of Parser::parse skip the empty lines after the `;`?"""
+    src = open(os.path.join(repo or common.REPO, "numbat", "src", "parser.rs")).read()
+    src = re.sub(r"//[^\n]*", "", src)
+    m = re.search(r"fn parse\(&mut self, tokens[^{]*\{", src)
+    if not m:
+        return False, "Parser::parse not found"
+    body = src[m.end():m.end() + 4000]
+    arm = re.search(r"TokenKind::Semicolon\s*=>\s*\{([^}]*)\}", body)
+    if not arm:
+        return False, "Semicolon arm not found"
+    txt = arm.group(1)
+    ok = bool(re.search(r"self\.advance\(tokens\)\s*;\s*self\.skip_empty_lines\(tokens\)\s*;", txt))
+    return ok, ""
+
+
+def write_parser_loop(flag):
+    text = ("(* GENERATED by tools/props/c07.py from numbat/src/parser.rs (Parser::parse):\n"
+            "   does the `TokenKind::Semicolon` arm of the statement loop call skip_empty_lines after advance? *)\n"
+            "Definition parser_semi_skips : bool := %s.\n" % ("true" if flag else "false"))
+    path = os.path.join(common.COQ, "theories", "Gen", "ParserLoop.v")
+    if not os.path.exists(path) or open(path).read() != text:
+        open(path, "w").write(text)
+        for ext in (".vo", ".vos", ".vok", ".glob"):
+            try:
+                os.remove(path[:-2] + ext)
+            except OSError:
+                pass
+
+
+# ------------------------------------------------------------ premise (b) on the real parser
+# statements that parse on their own; chosen so that every way a statement can END and every token a
+# statement can START with occurs (newline-sensitive constructs: where/and clauses, trailing `;`,
+# comments, decorators on their own line, brackets spanning lines, conditionals spanning lines)
+ALPHABET = [
+    "1", "x", "f(1)", "-1", "+2", "(1)", "[1, 2]", "!true", "x.a", "x²", "2 m", "1 -> m", "x |> f",
+    "\"str\"", "\"a {1} b\"", "if true then 1 else 2", "if true\n  then 1\n  else 2", "f(1,\n  2)", "[1,\n 2]",
+    "let a = 1", "let a: Length = 1 m", "fn f(x) = x", "fn f(x) = y\n  where y = x", "fn f(x) = y + z\n  where y = x\n  and z = 2",
+    "fn g(x: Scalar) -> Scalar", "unit u", "unit v: Length = 2 m", "dimension D", "dimension E = D^2",
+    "struct S { a: Scalar }", "struct T {\n  a: Scalar,\n  b: Scalar\n}", "S { a: 1 }", "use m::n",
+    "print(1)", "assert(true)", "assert_eq(1, 1)", "type(1)", "@aliases(q)\nlet z = 1", "@metric_prefixes\nunit w",
+    "1;", "1 ;", "let a = 1;", "1; 2", "1 # comment", "# only a comment", "1  ", "  1", "", "\n", "1\n", "\n1",
+    "2 per 3", "2^-1", "5!", "1e3", "0x1F", "true && false", "x ≥ 1", "a -> b -> c", "1 m²/s",
+]
+
+
+def parse_concat_cases():
+    return [(a, b) for a in ALPHABET for b in ALPHABET]
+
+
+def split_dump(d):
+    """'OK t1 ; t2 ;; v1,v2' -> (trees, values) or None for ERR"""
+    if not d.startswith("OK "):
+        return None
+    body, _, vals = d[3:].partition(" ;; ")
+    if d.endswith(";; "):
+        body, vals = d[3:-3], ""
+    body = body.strip()
+    trees = [t for t in body.split(" ; ") if t] if body else []
+    return trees, [v for v in vals.split(",") if v]
 RS = "\x1e"
 
 
@@ -85,9 +157,66 @@ def summarize(items):
     return ok, prints, last
 
 
+PTY_SAVE_SESSIONS = [
+    # typed lines (failing ones in between), the successful ones in order, stdout of replaying the saved file
+    (["let a = 2", "1 / 0", "  a * 3  ", "undefined_zz", "print(a)"], ["let a = 2", "a * 3", "print(a)"], ["2", "6"]),
+    (["let b = 1;", "use units::si", "let = 3", "b + 1"], ["let b = 1;", "use units::si", "b + 1"], ["2"]),
+]
+
+
+def pty_save_replay(chk, tmp):
+    """types sessions into the interactive binary, saves them with the real `save` command, replays the saved
+    file with `numbat <file>`.  Only conclusive transcripts count."""
+    import concurrent.futures as cf
+    import subprocess
+    res = {"conclusive": 0, "problems": []}
+    if not shutil.which("script"):
+        chk.notes.append("pty save/replay skipped: no `script` binary")
+        return res
+    try:
+        cli = common.build_cli()
+    except common.Broken as e:
+        chk.notes.append("pty save/replay skipped: %s" % str(e)[:200])
+        return res
+    home = os.path.join(common.WORK, "c07-pty")
+    os.makedirs(home, exist_ok=True)
+
+    def one(k):
+        typed, want, want_out = PTY_SAVE_SESSIONS[k]
+        path = os.path.join(tmp, "pty%d.nbt" % k)
+        txt = c06.pty_session(cli, home, typed + ["save " + path])
+        return txt, path
+    with cf.ThreadPoolExecutor(max_workers=len(PTY_SAVE_SESSIONS)) as ex:
+        outs = list(ex.map(one, range(len(PTY_SAVE_SESSIONS))))
+    for (typed, want, want_out), (txt, path) in zip(PTY_SAVE_SESSIONS, outs):
+        if not (c06.pty_conclusive(txt, typed + ["save " + path]) and os.path.exists(path)):
+            continue
+        res["conclusive"] += 1
+        saved = open(path, encoding="utf-8").read()
+        # the end marker typed after `save` is not part of the file
+        if saved != "".join(l + "\n" for l in want):
+            res["problems"].append(("interactive session %r: save wrote %r, the successful inputs are %r" % (typed, saved, want), typed))
+            continue
+        env = dict(common.ENV)
+        env.update({"HOME": home, "XDG_CONFIG_HOME": os.path.join(home, "cfg")})
+        p = subprocess.run([cli, "--no-config", "--no-init", "--color", "never", path], stdout=subprocess.PIPE,
+                           stderr=subprocess.PIPE, env=env, timeout=180)
+        out = p.stdout.decode("utf-8", "replace").split("\n")
+        if out and out[-1] == "":
+            out.pop()
+        if p.returncode != 0 or out != want_out:
+            res["problems"].append(("replaying the saved file of %r with `numbat <file>`: exit %d stdout %r stderr %r (expected exit 0, %r)" % (
+                typed, p.returncode, out, p.stderr.decode("utf-8", "replace")[:300], want_out), want))
+    return res
+
+
 def run(chk):
     binary, _ = common.build_harness()
     c06.write_skeleton(c06.skeleton_from_source()[0])
+    semi_flag, semi_note = parser_loop_from_source()
+    write_parser_loop(semi_flag)
+    if semi_note:
+        chk.notes.append("parser loop translator: " + semi_note)
     proved = chk.prove("Props.C07", THEOREMS, ["theories/Props/C07.vo", "theories/Session/Toy.vo"])
     if not proved:
         chk.notes.append("proof side: " + str(getattr(chk, "proof_failure", "?"))[:1500])
@@ -215,6 +344,44 @@ def run(chk):
     bad_model = common.coq_mismatches(S.COQ_IMPORTS + ["Gen.CtxSkeleton"], items, "c07",
                                       shard_size=max(8, -(-len(items) // common.NPROC)))
 
+    # premise (b) on the real parser: all ordered pairs of the statement alphabet
+    pc = parse_concat_cases()
+    pc_out = S.run_sessions(binary, [[("A", a), ("A", b), ("A", a + "\n" + b)] for a, b in pc])
+    pc_bad = []
+    pc_both_ok = 0
+    for (a, b), o in zip(pc, pc_out):
+        if len(o) < 3:
+            pc_bad.append((a, b, "no answer: %r" % (o,)))
+            continue
+        da, db, dj = split_dump(o[0]), split_dump(o[1]), split_dump(o[2])
+        if da is None or db is None:
+            continue
+        pc_both_ok += 1
+        if dj is None:
+            pc_bad.append((a, b, "both parse, joined with a newline: %s" % o[2]))
+        elif dj[0] != da[0] + db[0] or dj[1] != da[1] + db[1]:
+            pc_bad.append((a, b, "joined parses as %r, the parts as %r and %r" % (dj[0], da[0], db[0])))
+    stats["parse_concat_pairs"] = len(pc)
+    stats["parse_concat_pairs_both_parse"] = pc_both_ok
+    for a, b, text in pc_bad[:3]:
+        # a failing input of the property: a and b succeed as inputs iff they also type-check/run; report the
+        # parser-level disagreement together with what the interpreter says about the three inputs
+        o = S.run_sessions(binary, [[("X", ""), ("I", a), ("I", b)], [("X", ""), ("I", a + "\n" + b)]])
+        both_run = all(x.startswith("ok|") for x in o[0])
+        if both_run and not o[1][0].startswith("ok|"):
+            problems.append((len(sessions), "parse-concat", "inputs %r and %r each succeed (%r) but joined they answer %r" % (a, b, o[0], o[1])))
+            sessions.append([a, b])
+        else:
+            problems.append((len(sessions), "parse-concat", "%r + newline + %r: %s" % (a, b, text)))
+            sessions.append([a, b])
+
+    # end-to-end: the interactive binary under a pty, the real `save`, and the saved file replayed as a file
+    pty = pty_save_replay(chk, tmp)
+    stats["pty_save_sessions_conclusive"] = pty["conclusive"]
+    for text, lines in pty["problems"]:
+        problems.append((len(sessions), "pty save/replay", text))
+        sessions.append(lines)
+
     found = 0
     seen = set()
     for si, kind, text in problems:
@@ -240,7 +407,7 @@ def run(chk):
     shutil.rmtree(tmp, ignore_errors=True)
     full_ok = [si for si in base if base[si][0][0]]
     chk.cov.update({
-        "evaluations": len(cases) + len(replay_cases) + len(toy),
+        "evaluations": len(cases) + len(replay_cases) + len(toy) + len(pc),
         "distinct_nontrivial": len(set(tuple(sessions[si]) for si in full_ok if len(sessions[si]) > 2)),
         "rule": "seeded sessions of 4-11 lines believed to succeed (definitions, redefinitions, functions, units, "
                 "dimensions, structs, ans, prints, imports of 1-3 standard-library modules); each is run "
@@ -250,7 +417,10 @@ def run(chk):
         "sessions": len(sessions), "sessions_fully_successful": len(full_ok),
         "toy_joined_model_cases": len(toy), "model_mismatches": len(bad_model),
         "oracle_violations": len(problems), "histogram": dict(stats), "exhaustive": False,
-        "samples": [{"lines": sessions[i], "incremental": base[i][2]} for i in (0, len(sessions) - 1)],
+        "parse_concat": "all %d ordered pairs of a %d-statement alphabet on the real parser (dump_ast hook): joined tree list = "
+                        "concatenation whenever both parts parse (%d pairs)" % (len(pc), len(ALPHABET), pc_both_ok),
+        "parser_semi_skips": semi_flag,
+        "samples": [{"lines": sessions[i], "incremental": base[i][2]} for i in (0, max(base))],
     })
 
 
